@@ -60,7 +60,7 @@ var props = map[string]prop{
 	"C20": {"exploration", c20.Run},
 }
 
-var raceWorkers = map[string]func(*evid.Ctx){"C10": c10.RaceWorker, "C18": c18.RaceWorker, "C06": c06.RaceWorker, "C16": c16.RaceWorker, "C17": c17.RaceWorker}
+var raceWorkers = map[string]func(*evid.Ctx){"C10": c10.RaceWorker, "C18": c18.RaceWorker, "C06": c06.RaceWorker, "C16": c16.RaceWorker, "C17": c17.RaceWorker, "C15": c15.RaceWorker}
 
 func main() {
 	if len(os.Args) < 3 {
